@@ -12,6 +12,7 @@
 package main
 
 import (
+	"strings"
 	"encoding/json"
 	"fmt"
 	"os"
@@ -110,6 +111,15 @@ func directCorpus() []*directInput {
 		{Universe: simpleUniverse, Contact: bob("active", []string{"telegram:12345?channel=" + ch1, staleURNs[0], staleURNs[1]}, []int{3, 4}), Modifier: &modSpec{Kind: "channel", Channel: -1}},
 		{Universe: simpleUniverse, Contact: bob("active", []string{staleURNs[1], staleURNs[0]}, []int{3, 4}), Modifier: &modSpec{Kind: "channel", Channel: 0}},
 		{Universe: simpleUniverse, Contact: bob("active", []string{staleURNs[0], staleURNs[4]}, []int{3}), Modifier: &modSpec{Kind: "channel", Channel: 1}},
+		// hunt round (all fixed): URN whose query does not parse (announced, then rejected by every reader); number / date
+		// read from the part of the text that is cut off; datetime finer than the microseconds that are marshalled
+		{Universe: simpleUniverse, Contact: bob("active", []string{tel}, []int{3}), Modifier: &modSpec{Kind: "urns", Mode: "append", URNs: []string{"tel:0788123456? ;)"}}},
+		{Universe: simpleUniverse, Contact: bob("active", []string{tel}, []int{3}), Modifier: &modSpec{Kind: "urns", Mode: "set", URNs: []string{"tel:+12065551212?a;b", "telegram:123?%zz"}}},
+		{Universe: simpleUniverse, Contact: bob("active", nil, []int{3}), Modifier: &modSpec{Kind: "field", Field: 1, Text: "0." + strings.Repeat("0", 1001) + "1"}},
+		{Universe: simpleUniverse, Contact: bob("active", nil, []int{3}), Modifier: &modSpec{Kind: "field", Field: 1, Text: "1" + strings.Repeat("0", 640)}},
+		{Universe: simpleUniverse, Contact: bob("active", nil, []int{3}), Modifier: &modSpec{Kind: "field", Field: 2, Text: strings.Repeat("I don't remember. ", 40) + "Maybe 2019-05-06?"}},
+		{Universe: simpleUniverse, Contact: bob("active", nil, []int{3}), Modifier: &modSpec{Kind: "field", Field: 2, Text: "2020-01-01T10:00:00.123456789Z"}},
+		{Universe: simpleUniverse, Contact: bob("active", nil, []int{3}), Modifier: &modSpec{Kind: "field", Field: 0, Text: "2020-01-01T10:00:00.000000001+02:00"}},
 		// a group reference repeated in the stored contact (F6c, fixed by 595be89): Remove deleted one entry only
 		{Universe: simpleUniverse, Contact: &contactSpec{Name: "Jim", Lang: "eng", Status: "active", Groups: []int{3, 3, 0, 0}, Fields: map[string]string{}}, Modifier: &modSpec{Kind: "language", Text: "fra"}},
 		{Universe: simpleUniverse, Contact: &contactSpec{Name: "Jim", Lang: "eng", Status: "active", Groups: []int{0, 1, 0}, Fields: map[string]string{}}, Modifier: &modSpec{Kind: "groups", Mode: "remove", Groups: []int{0}}},
@@ -131,6 +141,41 @@ func movingClockProbe() []*directInput {
 		}
 	}
 	return out
+}
+
+// inputs the one-environment / total-SetChannel model does not represent (oracles only):
+// F3i (fixed): a stored URN that is valid but cannot be rebuilt by SetChannel (normalising it makes it invalid) was replaced
+// by the empty URN when the preferred channel was set or cleared
+func oracleOnlyCorpus() []*directInput {
+	long := "mailto:" + strings.Repeat("\u023a", 126) + "@b"
+	return []*directInput{
+		{Universe: simpleUniverse, Contact: bob("active", []string{"ext: "}, []int{3}), Modifier: &modSpec{Kind: "channel", Channel: -1}},
+		{Universe: simpleUniverse, Contact: bob("active", []string{long, "tel:+593979111111"}, []int{3}), Modifier: &modSpec{Kind: "channel", Channel: -1}},
+		{Universe: simpleUniverse, Contact: bob("active", []string{long}, []int{3}), Modifier: &modSpec{Kind: "channel", Channel: 1}},
+	}
+}
+
+// F3j (known, cause in gocommon urns unescape, which decodes %23 %25 %3F in map order): appending a URN the contact
+// already has duplicates it from time to time; 60 rounds make a miss practically impossible
+func mapOrderProbe(res *hx.Result) {
+	in := &directInput{Universe: simpleUniverse, Contact: bob("active", []string{"ext:a%2523b"}, []int{3}), Modifier: &modSpec{Kind: "urns", Mode: "append", URNs: []string{"ext:a%2523b"}}}
+	u, err := buildUniverse(in.Universe, nil)
+	if err != nil {
+		panic(err)
+	}
+	mod, _ := u.buildModifier(in.Modifier)
+	res.OracleChecks++
+	for round := 0; round < 60; round++ {
+		c, err := u.buildContact(in.Contact)
+		if err != nil {
+			panic(err)
+		}
+		a := u.applyOnce(c, mod)
+		if a.modified || len(c.URNs()) != 1 {
+			res.Fail("urns-modifier:append:present-urn:identity-depends-on-map-order", in, fmt.Sprintf("round %d: appending the URN the contact already has gave modified=%v and URNs %v", round, a.modified, c.URNs().RawURNs()))
+			return
+		}
+	}
 }
 
 func main() {
@@ -189,6 +234,10 @@ func main() {
 		for _, in := range movingClockProbe() {
 			doDirect(in, false)
 		}
+		for _, in := range oracleOnlyCorpus() {
+			doDirect(in, false)
+		}
+		mapOrderProbe(res)
 	}
 
 	nDirect := o.Count(1150, 20000)
